@@ -247,3 +247,55 @@ PLAN['C09'] = {
     'assumptions': ['free term algebra for hashes', 'proofs handed to Verify(remember)/Ingest are the specification\'s canonical ones',
                     'exhaustive only within the stated bounds'],
 }
+
+
+def adv(name, mode, maxn, maxclaim, maxproof, **kw):
+    st = {
+        'kind': 'gen_replay', 'name': name, 'module': 'Adversary', 'fam': 'adv', 'spec': 'Spec',
+        'constants': {'MaxN': maxn, 'MaxClaim': maxclaim, 'MaxProof': maxproof, 'NJunk': 2},
+        'invariants': ['DomainOK'], 'x': 'mode=' + mode, 'harness_workers': 2,
+    }
+    st.update(kw)
+    return st
+
+
+# --------------------------------------------------------------------------- C03
+PLAN['C03'] = {
+    'stages': lambda tier, seed: (
+        [adv('adv_sound', 'c03', 4, 2, 2, trace_module='AdversaryTrace')] if tier == 'quick' else
+        [adv('adv_sound', 'c03', 5, 2, 2, trace_module='AdversaryTrace', timeout=14000),
+         adv('adv_sound3', 'c03', 3, 3, 3, trace_module='AdversaryTrace', timeout=14000)]),
+    'rule': 'spec/Adversary.tla makes every abstract state (n, live) within the bound an initial state and emits its input '
+            'domain: claimed hashes = every node hash (all leaves, internal nodes, non-zero roots) and fresh values; '
+            'targets = every position of the geometry and the three numbers beyond it; proof hashes = the same alphabet '
+            'plus the zero hash. The harness forms the complete product (claims up to MaxClaim, proofs up to MaxProof) '
+            'against Verify, Pollard.Verify, MapPollard.Verify (TotalRows 63 and grow-on-demand) and VerifyPartialProof '
+            '(full forest, from-roots forest); every acceptance must satisfy ClaimsTrue (node table from the '
+            'specification) and is logged; the log is validated by TLC against spec/AdversaryTrace.tla (R->T). '
+            'evaluations = states; library_calls_monitored = verifier calls.',
+    'bounds': {'quick': 'n<=4 (31 states), claims<=2, proofs<=2: 21.9 M verifier calls',
+               'thorough': 'n<=5, claims<=2, proofs<=2; n<=3, claims<=3, proofs<=3'},
+    'exhaustive': {'quick': True, 'thorough': True},
+    'assumptions': ['free term algebra for hashes: "barring a hash collision" holds by construction',
+                    'claimed hashes are non-zero (as the property states); the zero hash may occur in the proof',
+                    'at most 20000 acceptances per run are handed to TLC for trace validation (all are judged by the harness)'],
+}
+
+# --------------------------------------------------------------------------- C04
+PLAN['C04'] = {
+    'stages': lambda tier, seed: (
+        [adv('adv_total', 'c04', 4, 2, 2)] if tier == 'quick' else
+        [adv('adv_total', 'c04', 6, 2, 2, timeout=14000)]),
+    'rule': 'per abstract state of spec/Adversary.tla the harness calls Verify, Stump.Update, Pollard.Verify, '
+            'MapPollard.Verify and MapPollard.VerifyPartialProof with malformed input: every position plus 2^(R+1)-1.., '
+            '2^32, 2^62+3, 2^63, 2^64-2, 2^64-1 as targets, duplicates and nested pairs, hash lists longer/shorter than '
+            'the target lists, zero hashes, proofs of length 0..2 and an oversized one, and synthetic well-formed stumps '
+            'with 2^31+5 .. 2^64-1 leaves. Every call runs under a watchdog (2 s budget, i.e. > 10^6 times the honest '
+            'cost) with panics recovered; after a rejected Stump.Update leaf count and roots are compared with a '
+            'snapshot. evaluations = states; library_calls_monitored = calls.',
+    'bounds': {'quick': 'n<=4 (31 states): 4.2 M calls, 0.55 M rejected updates', 'thorough': 'n<=6 (127 states)'},
+    'exhaustive': {'quick': False, 'thorough': False},
+    'assumptions': ['"polynomial time" is not decidable by this technique: what is checked is return within a budget several '
+                    'orders of magnitude above the honest cost on inputs of bounded size',
+                    'the malformed-input domain is the structured one described in the rule, not all of uint64^k'],
+}
